@@ -37,6 +37,7 @@ const procfddir = "/proc/self/fd"
 
 type tmpfile struct {
 	f          *os.File
+	dir        string
 	bucket     string
 	objname    string
 	isOTmp     bool
@@ -81,6 +82,7 @@ func (p *Posix) openTmpFile(dir, bucket, obj string, size int64, acct auth.Accou
 
 	tmp := &tmpfile{
 		f:          f,
+		dir:        dir,
 		bucket:     bucket,
 		objname:    obj,
 		isOTmp:     true,
@@ -124,6 +126,7 @@ func (p *Posix) openMkTemp(dir, bucket, obj string, size int64, dofalloc bool, u
 	}
 	tmp := &tmpfile{
 		f:          f,
+		dir:        dir,
 		bucket:     bucket,
 		objname:    obj,
 		size:       size,
@@ -165,14 +168,21 @@ func (tmp *tmpfile) link() error {
 	// of last upload completed wins and is not some combination of writes
 	// from simultaneous uploads.
 	objPath := filepath.Join(tmp.bucket, tmp.objname)
-	err := os.Remove(objPath)
-	if err != nil && !errors.Is(err, fs.ErrNotExist) {
-		return fmt.Errorf("remove stale path: %w", err)
+
+	// An existing object is replaced atomically by the rename below, so that
+	// the key never disappears (not for a concurrent reader, not after a
+	// crash). Only a stale directory in the way has to be removed first,
+	// rename does not replace a directory with a file.
+	if fi, err := os.Lstat(objPath); err == nil && fi.IsDir() {
+		err := os.Remove(objPath)
+		if err != nil && !errors.Is(err, fs.ErrNotExist) {
+			return fmt.Errorf("remove stale path: %w", err)
+		}
 	}
 
 	dir := filepath.Dir(objPath)
 
-	err = backend.MkdirAll(dir, tmp.uid, tmp.gid, tmp.needsChown, tmp.newDirPerm)
+	err := backend.MkdirAll(dir, tmp.uid, tmp.gid, tmp.needsChown, tmp.newDirPerm)
 	if err != nil {
 		return fmt.Errorf("make parent dir: %w", err)
 	}
@@ -188,17 +198,24 @@ func (tmp *tmpfile) link() error {
 	}
 	defer procdir.Close()
 
-	dirf, err := os.Open(dir)
+	// linkat cannot replace an existing name: give the unnamed file a
+	// temporary name in the directory it was created in and move that over
+	// the object
+	tmpdir := tmp.dir
+	dirf, err := os.Open(tmpdir)
 	if err != nil {
-		return fmt.Errorf("open parent dir: %w", err)
+		return fmt.Errorf("open temp dir: %w", err)
 	}
 	defer dirf.Close()
 
+	tmpname := fmt.Sprintf("%v.%v.link", filepath.Base(tmp.f.Name()), os.Getpid())
+	tmppath := filepath.Join(tmpdir, tmpname)
 	for {
 		err = unix.Linkat(int(procdir.Fd()), filepath.Base(tmp.f.Name()),
-			int(dirf.Fd()), filepath.Base(objPath), unix.AT_SYMLINK_FOLLOW)
+			int(dirf.Fd()), tmpname, unix.AT_SYMLINK_FOLLOW)
 		if errors.Is(err, syscall.EEXIST) {
-			err := os.Remove(objPath)
+			// leftover of an earlier crash
+			err := os.Remove(tmppath)
 			if err != nil && !errors.Is(err, fs.ErrNotExist) {
 				return fmt.Errorf("remove stale path: %w", err)
 			}
@@ -206,9 +223,15 @@ func (tmp *tmpfile) link() error {
 		}
 		if err != nil {
 			return fmt.Errorf("link tmpfile (fd %q as %q): %w",
-				filepath.Base(tmp.f.Name()), objPath, err)
+				filepath.Base(tmp.f.Name()), tmppath, err)
 		}
 		break
+	}
+
+	err = os.Rename(tmppath, objPath)
+	if err != nil {
+		os.Remove(tmppath)
+		return fmt.Errorf("move tmpfile (%q to %q): %w", tmppath, objPath, err)
 	}
 
 	err = tmp.f.Close()
